@@ -72,11 +72,16 @@ def code_schema():
             return float(node.value)
         return node.value
     raw = ScalarType("Raw", serialize=lambda v: v, parse=lambda v: v, parse_literal=raw_literal)
+    code = ScalarType("Code", serialize=str, parse=str)
     email = RegexType("Email", r"^[^@]+@[^@]+$", description="an address")
     sub_object = SubObject("Sub", [Field("x", Int, description="LS\u2028PS\u2029NEL\u0085 are not line terminators")],
                            description="first\u2028still first\nsecond\u0085still second")
     from py_gql.schema import EnumValue
     sub_enum = SubEnum("Shade", [("DARK", "d"), ("LIGHT", "l"), EnumValue("GONE", "x", deprecation_reason=""), EnumValue("OLD", "o", deprecation_reason="No longer supported")])
+    # descriptions the block form cannot carry as they are (trailing backslash / quote, form feed, common indentation, leading / trailing blank line)
+    odd = ObjectType("Odd", [Field("a", Int, description="C:\\temp\\"), Field("b", Int, description="  a\n  b"), Field("c", Int, description="\nabc"),
+                             Field("d", Int, description="abc\n"), Field("e", Int, description="ends with a quote\""), Field("f", Int, description="x\u000cy"),
+                             Field("g", Int, description="a\n\n  b\n"), Field("h", Int, description="\\\"\"\"")], description="  indented type description")
     named = InterfaceType("Named", [Field("name", String)], resolve_type=lambda *a: "Dog")
     dog = ObjectType("Dog", [Field("name", String), Field("mood", color, deprecation_reason="moody"),
                              Field("old", String, deprecation_reason="first line\n  second, indented\n")], interfaces=[named], description="a dog\nwith two lines")
@@ -84,6 +89,7 @@ def code_schema():
     side = EnumType("Side", [("LEFT", "RIGHT"), ("RIGHT", "LEFT"), ("UP", "UP"), ("DOWN", "up")])
     sided = InputObjectType("Sided", [InputField("sd", side, default_value="LEFT"), InputField("sl", ListType(side), default_value=["RIGHT", "UP", "up"])])
     query = ObjectType("Query", [
+        Field("odd", odd),
         Field("py", Int, args=[Argument("theArg", named_in, python_name="the_arg", default_value={"some_field": 1, "other_py": 4}),
                                Argument("inner", inner, default_value={"n": 2, "c": 1, "s": "x", "l": [1, 2], "again": None, "cs": [1, "g"], "snake_py": 9})]),
         Field("side", side, args=[Argument("s", side, default_value="RIGHT"), Argument("ss", NonNullType(ListType(NonNullType(side))), default_value=["LEFT", "RIGHT"]),
@@ -102,7 +108,9 @@ def code_schema():
         Field("raw", raw, args=[Argument("r1", raw, default_value=1), Argument("r2", raw, default_value=True), Argument("r3", raw, default_value=1.0),
                                 Argument("r4", ListType(raw), default_value=[0, False, 0.0]), Argument("r5", raw, default_value=False),
                                 Argument("r6", raw, default_value=0)]),
-        Field("email", email, args=[Argument("like", email, default_value="a@b")]), Field("sub", ListType(sub_object)), Field("shade", sub_enum), Field("e0", String, deprecation_reason=""),
+        Field("email", email, args=[Argument("like", email, default_value="a@b")]),
+        # string defaults of a custom scalar that merely LOOK numeric
+        Field("code", code, args=[Argument("c%d" % i, code, default_value=v) for i, v in enumerate(["nan", "Infinity", "0612345678", "1e5", "1_000", " 12 ", "1.50", "-0", "12", "1.5"])]), Field("sub", ListType(sub_object)), Field("shade", sub_enum), Field("e0", String, deprecation_reason=""),
         Field("deep7", NonNullType(ListType(NonNullType(ListType(NonNullType(ListType(NonNullType(String)))))))),
     ])
     return Schema(query)
@@ -194,6 +202,8 @@ def schema_sources():
         out.append(("roots%d" % i, (lambda s: (lambda: __import__("py_gql").build_schema(s)))(sdl)))
     out.append(("roots-code", roots_code_schema))
     for i, sdl in enumerate(c11.EXTRA_VALID):
+        if c11.self_referential_default(sdl):
+            continue          # cannot be built at all: C11's listed finding (self-referential input default)
         out.append(("extra%d" % i, (lambda s: (lambda: __import__("py_gql").build_schema(s)))(sdl)))
     return out
 
@@ -269,8 +279,6 @@ def check(tier, seed):
     # --- B. round trip ----------------------------------------------------------------------------------------------
     for name, make in schema_sources():
         for opts in OPTION_SETS:
-            if opts.get("include_introspection"):
-                continue      # the text then also defines the introspection types, which a schema may not redefine
             n += 1
             w = {"schema": name, "options": opts}
             try:
@@ -287,7 +295,7 @@ def check(tier, seed):
             try:
                 # SDL cannot carry the behaviour of a custom scalar: code-built custom scalars are handed to the builder, as the library documents
                 from py_gql.schema import ScalarType as _ST
-                customs = [t for t in s.types.values() if type(t) is _ST and t.name == "Raw"]
+                customs = [t for t in s.types.values() if type(t) is _ST and t.name in ("Raw", "Code")]
                 s2 = build_schema(text, additional_types=customs) if customs else build_schema(text)
             except Exception as e:
                 run.violation("to_string:output-builds", "building a schema from the serialised text raised %r" % (e,), dict(w, text=text[:600], exc=type(e).__name__), True)
